@@ -1083,29 +1083,40 @@ private:
     // UnboundedNoMaxLimit does not block or drop messages
     for (ThreadContext* thread_context : _active_thread_contexts_cache)
     {
-      if (thread_context->has_bounded_queue_type())
+      _report_failure_counter(thread_context, error_notifier);
+    }
+  }
+
+  /**
+   * Reports and resets the dropped messages / blocking occurrences counter of a single thread context
+   * @param thread_context thread context
+   * @param error_notifier error notifier
+   */
+  QUILL_ATTRIBUTE_HOT static void _report_failure_counter(ThreadContext* thread_context,
+                                                          std::function<void(std::string const&)> const& error_notifier) noexcept
+  {
+    if (thread_context->has_bounded_queue_type())
+    {
+      size_t const failed_messages_cnt = thread_context->get_and_reset_failure_counter();
+
+      if (QUILL_UNLIKELY(failed_messages_cnt > 0))
       {
-        size_t const failed_messages_cnt = thread_context->get_and_reset_failure_counter();
+        char timestamp[24];
+        time_t now = time(nullptr);
+        tm local_time;
+        localtime_rs(&now, &local_time);
+        strftime(timestamp, sizeof(timestamp), "%X", &local_time);
 
-        if (QUILL_UNLIKELY(failed_messages_cnt > 0))
+        if (thread_context->has_dropping_queue())
         {
-          char timestamp[24];
-          time_t now = time(nullptr);
-          tm local_time;
-          localtime_rs(&now, &local_time);
-          strftime(timestamp, sizeof(timestamp), "%X", &local_time);
-
-          if (thread_context->has_dropping_queue())
-          {
-            error_notifier(fmtquill::format("{} Quill INFO: Dropped {} log messages from thread {}",
-                                            timestamp, failed_messages_cnt, thread_context->thread_id()));
-          }
-          else if (thread_context->has_blocking_queue())
-          {
-            error_notifier(
-              fmtquill::format("{} Quill INFO: Experienced {} blocking occurrences on thread {}",
-                               timestamp, failed_messages_cnt, thread_context->thread_id()));
-          }
+          error_notifier(fmtquill::format("{} Quill INFO: Dropped {} log messages from thread {}",
+                                          timestamp, failed_messages_cnt, thread_context->thread_id()));
+        }
+        else if (thread_context->has_blocking_queue())
+        {
+          error_notifier(
+            fmtquill::format("{} Quill INFO: Experienced {} blocking occurrences on thread {}",
+                             timestamp, failed_messages_cnt, thread_context->thread_id()));
         }
       }
     }
@@ -1396,10 +1407,6 @@ private:
       return;
     }
 
-    // report dropped messages / blocking occurrences before a context is removed, otherwise the
-    // failure counter of a thread that has exited is lost together with its context
-    _check_failure_counter(_options.error_notifier);
-
     auto find_invalid_and_empty_thread_context_callback = [](ThreadContext* thread_context)
     {
       // If the thread context is invalid it means the thread that created it has now died.
@@ -1436,6 +1443,11 @@ private:
 
     while (QUILL_UNLIKELY(found_invalid_and_empty_thread_context != std::end(_active_thread_contexts_cache)))
     {
+      // The thread has exited, so its failure counter is final: report it now, otherwise the
+      // dropped messages / blocking occurrences counted since the last check are lost together
+      // with the context
+      _report_failure_counter(*found_invalid_and_empty_thread_context, _options.error_notifier);
+
       // if we found anything then remove it - Here if we have more than one to remove we will
       // try to acquire the lock multiple times, but it should be fine as it is unlikely to have
       // that many to remove
